@@ -363,6 +363,54 @@ func constAddrChain(v ssa.Value) (root ssa.Value, sel string, ok bool) {
 
 // readOnlyOutsideInit: outside its package initialiser the variable is only
 // loaded, or indexed / field-selected and then loaded.
+// sliceReadOnly: the slice value v is only read: indexed for loads, measured,
+// ranged over, re-sliced, or handed to a function (with a body) whose
+// parameter is itself only read.
+func sliceReadOnly(v ssa.Value, readOnly func(ssa.Value) bool, depth int) bool {
+	if depth > 3 {
+		return false
+	}
+	refs := v.Referrers()
+	if refs == nil {
+		return true
+	}
+	for _, r := range *refs {
+		switch x := r.(type) {
+		case *ssa.DebugRef, *ssa.Range:
+		case *ssa.IndexAddr:
+			if x.X != v || !readOnly(x) {
+				return false
+			}
+		case *ssa.Index:
+		case *ssa.Slice:
+			if x.X != v || !sliceReadOnly(x, readOnly, depth+1) {
+				return false
+			}
+		case *ssa.Call:
+			if b, ok := x.Call.Value.(*ssa.Builtin); ok {
+				if b.Name() == "len" || b.Name() == "cap" {
+					continue
+				}
+				return false
+			}
+			callee := x.Call.StaticCallee()
+			if callee == nil || callee.Blocks == nil {
+				return false
+			}
+			for i, a := range x.Call.Args {
+				if a == v {
+					if i >= len(callee.Params) || !sliceReadOnly(callee.Params[i], readOnly, depth+1) {
+						return false
+					}
+				}
+			}
+		default:
+			return false
+		}
+	}
+	return true
+}
+
 func (w *World) readOnlyOutsideInit(g *ssa.Global) bool {
 	var readOnly func(v ssa.Value) bool
 	readOnly = func(v ssa.Value) bool {
@@ -405,6 +453,11 @@ func (w *World) readOnlyOutsideInit(g *ssa.Global) bool {
 						}
 					case *ssa.FieldAddr:
 						if !readOnly(x) {
+							return false
+						}
+					case *ssa.Slice:
+						// g[:] handed around: read-only when every use of the slice only reads
+						if x.X != ssa.Value(g) || !sliceReadOnly(x, readOnly, 0) {
 							return false
 						}
 					default:
